@@ -839,7 +839,10 @@ pub(crate) fn merge_trees(
     save: &impl Fn(Tree) -> RusticResult<(TreeId, u64)>,
     summary: &mut SnapshotSummary,
 ) -> RusticResult<TreeId> {
-    // We store nodes with the index of the tree in an Binary Heap where we sort only by node name
+    // We store nodes with the index of the tree in an Binary Heap where we sort only by node name.
+    // Trees are sorted by the real (unescaped) name, so this is what has to be compared here: the
+    // escaped `Node.name` orders differently as soon as a name needs escaping (e.g. "a\tb" < "aAb",
+    // but r"a\tb" > "aAb") and the k-way merge would then miss equal names and emit duplicates.
     struct SortedNode(Node, usize);
     impl PartialEq for SortedNode {
         fn eq(&self, other: &Self) -> bool {
@@ -854,7 +857,7 @@ pub(crate) fn merge_trees(
     impl Eq for SortedNode {}
     impl Ord for SortedNode {
         fn cmp(&self, other: &Self) -> Ordering {
-            self.0.name.cmp(&other.0.name).reverse()
+            self.0.name().cmp(&other.0.name()).reverse()
         }
     }
 
